@@ -4,16 +4,18 @@ get_unique_invariant_filters has no continuous input: for fixed (M, k, parity, D
 through float einsum, np.unique and argsort, outside the reach of symbolic execution, and there is nothing to quantify
 over beyond its discrete arguments.  Within this family the property is decided as a RUN-TIME CONTRACT on the real
 function, evaluated exhaustively over a stated finite domain -- bounded, never counted as a proof."""
-from ..core import Ob, native
+import itertools
+import z3
+from ..core import Ob, native, guard
 
 LEVEL = "other"
 MANIFEST = {
     "category": "other",
-    "technique": "run-time contract (post-condition in exact integer / rational arithmetic) on the real get_unique_invariant_filters, evaluated exhaustively over a finite domain of (group, d, M, k, parity); bounded stand-in of contract-based verification, not a proof",
+    "technique": "run-time contract (post-condition in exact integer / rational arithmetic) on the real get_unique_invariant_filters, evaluated exhaustively over a finite domain of (group, d, M, k, parity); bounded stand-in of contract-based verification, not a proof. Deductive (z3, all pixel values): GeometricFilter.normalize / rectify rescale by a non-zero scalar on every path; get_invariant_filters(_dict/_list) against the generator's callee contract",
     "text": "For every instance of the stated finite domain the real generator is called (in one process per (group, d), sides and orders ascending, so cache / call-history effects are exercised) and its post-condition is checked exactly: every returned filter, rescaled to its primitive integer vector, is fixed by every group element; the integer matrix of the family has full row rank over Q; the family size equals the dimension of the fixed subspace computed twice independently (character formula (1/|G|) sum_g fix(g) tr(g)^k det(g)^p and the orbit construction of the general invariant filter). This is the closed-generator case of DESIGN.md 3/C03: there is no quantifier a deductive verifier could discharge beyond the enumeration itself.",
     "note": "BOUNDED: domain G in {B_d (both list orders), rotation subgroup, C2^d, trivial, <r90>, <flip> (identity listed last)}, d in {2,3}, M = 1..5 (d=2) / 1..3 (d=3, thorough 1..4), k = 0..4 (d=2; quick 0..3) / 0..2 (d=3); float output is accepted as a rational multiple of an integer filter to 1e-5; GeometricFilter.normalize / rectify (rescaling by a non-zero scalar) are exercised through the generator",
 }
-FUNCTIONS = ["geometric.common.get_unique_invariant_filters", "geometric.common.get_basis", "GeometricFilter.normalize", "GeometricFilter.rectify", "GeometricFilter.bigness",
+FUNCTIONS = ["GeometricFilter.normalize (deductive: every path, symbolic pixel values)", "GeometricFilter.rectify (deductive)", "geometric.common.get_invariant_filters_dict / _list / get_invariant_filters (deductive, modular over the generator)", "geometric.common.get_unique_invariant_filters (bounded run-time contract)", "geometric.common.get_basis", "GeometricFilter.normalize", "GeometricFilter.rectify", "GeometricFilter.bigness",
              "functional_geometric_image.times_group_element (through the generator)"]
 TRUSTED = ["the real jax / numpy execution of the generator", "exact rational rank computation and character formula in gvc/native/c03.py", "gvc/specs/invfilter.py (second, independent dimension count)"]
 ASSUMPTIONS = ["bounded domain (stated in the level note)", "returned floats are rational multiples of small integer vectors (checked to 1e-5)"]
@@ -28,7 +30,7 @@ G3 = ["B_d", "C2^d", "<r90> (identity last)", "<flip> (identity last)"]
 
 def jobs(tier):
     q = tier == "quick"
-    out = []
+    out = [("gvc.props.c03", "ob_rescaling", dict(D=D)) for D in [2, 3]] + [("gvc.props.c03", "ob_assembly", dict(D=2))]
     for g in G2:
         out.append(("gvc.props.c03", "ob_chunk", dict(D=2, gname=g, Ms=[1, 2, 3, 4] if q else [1, 2, 3, 4, 5], ks=[0, 1, 2, 3] if q else [0, 1, 2, 3, 4])))
     for g in G3:
@@ -49,3 +51,127 @@ def ob_chunk(D, gname, Ms, ks):
                       dict(D=D, group=gname, M=x["M"], k=x["k"], parity=x["p"], bounded=True),
                       dict(scenario="chunk", D=D, gname=gname, Ms=Ms, ks=ks)))
     return obs
+
+
+# ------------------------------------------------------------------------------------------------------------------
+# the parts of the anchored mechanism that ARE within reach of deduction: rescaling only, assembly loses nothing
+
+def ob_rescaling(D):
+    """GeometricFilter.normalize / rectify 'must not change the span': on EVERY path of the real methods, for symbolic pixel
+    values, the result is the filter itself or self.times_scalar(c) with c provably non-zero (times_scalar's own contract --
+    scalar multiple, same type -- is C05's).  jnp.max gets the weakest contract (some real number)."""
+    import sys as _s
+    from .. import sym, arr, lib
+    from ..arr import Atom
+    from ..loader import load
+    GI = load()["ginjax.geometric.geometric_image"]
+    jnp_ = GI.__dict__["jnp"]
+    obs = []
+    for (k, p) in [(0, 0), (0, 1), (1, 0), (2, 0)] + ([(1, 1)] if D == 3 else []):
+        for method in ["normalize", "rectify"]:
+            structure = dict(D=D, k=k, parity=p, M=3, method=method)
+
+            def body(k=k, p=p, method=method):
+                A = arr.source("F", [Atom(3) for _ in range(D)] + [Atom(D) for _ in range(k)])
+                calls = []
+
+                def times_scalar(self, c):
+                    calls.append(c)
+                    return ("scaled", self, c)
+                saved = (GI.GeometricImage.times_scalar, GI.__dict__.get("float"), jnp_.__dict__.get("max"))
+                GI.GeometricImage.times_scalar = times_scalar
+                GI.__dict__["float"] = lib.FloatShim
+                jnp_.max = lambda a, *x, **kw: sym.SReal(z3.Real(sym.fresh_name("max")))       # weakest contract of jnp.max
+                verdicts = []
+                try:
+                    for out in sym.run_paths(lambda: (lambda f: (f, getattr(f, method)()))(GI.GeometricFilter(A, p, D)), []):
+                        sym.CTX.path = list(out["path"])
+                        if "raised" in out:
+                            verdicts.append(("refuted", f"{method} raises {out['raised']!r} on a feasible path", None))
+                            continue
+                        f, r = out["result"]
+                        if r is f:
+                            verdicts.append(("proved", "returns the filter itself", None))
+                        elif isinstance(r, tuple) and r[0] == "scaled" and r[1] is f:
+                            c = r[2]
+                            st, m = sym.refute_or_prove(sym.zr(c) != 0)
+                            verdicts.append((st, f"returns self.times_scalar({c!r})", m))
+                        else:
+                            verdicts.append(("refuted", f"{method} returns something that is neither the filter nor a scalar multiple of it: {type(r).__name__}", None))
+                        calls.clear()
+                finally:
+                    GI.GeometricImage.times_scalar = saved[0]
+                    if saved[1] is None:
+                        GI.__dict__.pop("float", None)
+                    else:
+                        GI.__dict__["float"] = saved[1]
+                    if saved[2] is None:
+                        jnp_.__dict__.pop("max", None)
+                    else:
+                        jnp_.max = saved[2]
+                for v in verdicts:
+                    if v[0] != "proved":
+                        return v
+                if not verdicts:
+                    return "undecided", "no path", None
+                return "proved", f"{len(verdicts)} paths: the filter itself or a non-zero scalar multiple", None
+            obs.append(guard(f"C03/GeometricFilter.{method}/D={D},k={k},p={p}/ensures:rescaling-by-a-non-zero-scalar-only", "ensures", body, structure))
+    return obs
+
+
+def ob_assembly(D):
+    """get_invariant_filters_dict / _list / get_invariant_filters against the callee contract of get_unique_invariant_filters
+    (a list of n filters of the requested type): every family is stored under its own (D, M, k, parity) key, the list is
+    the concatenation in (k, parity) order, and the MultiImage holds under (k, parity) exactly that family's filters, in order:
+    nothing lost, nothing mixed between types."""
+    from .. import sym, arr
+    from ..arr import Atom
+    from ..loader import load
+    C = load()["ginjax.geometric.common"]
+    GI = load()["ginjax.geometric.geometric_image"]
+    M = 3
+    ks, ps = [0, 1, 2], [0, 1]
+    counts = {(k, p): 1 + (2 * k + p) % 3 for k in ks for p in ps}
+    counts[(0, 1)] = 0          # a type without invariant filters (as for the full group at M = 3)
+    fam, asked = {}, []
+
+    def stub(M_, k, parity, D_, operators, scale="normalize"):
+        asked.append((M_, k, parity, D_, scale))
+        fam[(k, parity)] = [GI.GeometricFilter(arr.source(f"F{k}{parity}_{i}", [Atom(M_) for _ in range(D_)] + [Atom(D_) for _ in range(k)]), parity, D_)
+                            for i in range(counts[(k, parity)])]
+        return fam[(k, parity)]
+
+    def body():
+        sym.reset(todo=[])
+        saved = C.__dict__["get_unique_invariant_filters"]
+        C.__dict__["get_unique_invariant_filters"] = stub
+        try:
+            d, maxn = C.get_invariant_filters_dict([M], ks, ps, D, "OPS", "one")
+            first = dict(fam)
+            lst = C.get_invariant_filters_list([M], ks, ps, D, "OPS", "one")
+            second = dict(fam)
+            mi = C.get_invariant_filters([M], ks, ps, D, "OPS", "one")
+        finally:
+            C.__dict__["get_unique_invariant_filters"] = saved
+        if any(a != (M, k, p, D, "one") for a, (k, p) in zip(asked, list(itertools.product(ks, ps)) * 3)):
+            return "refuted", f"the generator is not asked for each (M, k, parity) with the caller's D / scale: {asked[:6]}", None
+        if list(d.keys()) != [(D, M, k, p) for k in ks for p in ps] or any(d[(D, M, k, p)] is not first[(k, p)] for k in ks for p in ps):
+            return "refuted", "get_invariant_filters_dict does not store each family under its own (D, M, k, parity) key", None
+        if maxn != {(D, M): max(counts.values())}:
+            return "refuted", f"maxn = {maxn}", None
+        flat = [f for k in ks for p in ps for f in second[(k, p)]]
+        if len(lst) != len(flat) or any(a is not b for a, b in zip(lst, flat)):
+            return "refuted", "get_invariant_filters_list is not the concatenation of the families in (k, parity) order", None
+        exp_keys = [(k, p) for k in ks for p in ps if counts[(k, p)] > 0]
+        if list(mi.keys()) != exp_keys:
+            return "refuted", f"MultiImage types {list(mi.keys())} != types with filters {exp_keys}", None
+        for (k, p) in exp_keys:
+            blk = arr.lift(mi[(k, p)])
+            if sym.concrete_int(blk.shape[0]) != counts[(k, p)]:
+                return "refuted", f"type {(k, p)}: {blk.shape[0]} filters in the MultiImage, {counts[(k, p)]} generated", None
+            for i, f in enumerate(fam[(k, p)]):
+                st = arr.compare(blk[i], f.data, f"filter {i} of type {(k, p)}")
+                if st[0] != "proved":
+                    return st
+        return "proved", f"{sum(counts.values())} filters of {len(exp_keys)} types", None
+    return [guard(f"C03/get_invariant_filters(_dict,_list)/D={D}/ensures:every-family-under-its-own-type,nothing-lost", "ensures", body, dict(D=D, M=M, counts={str(k_): v for k_, v in counts.items()}))]
